@@ -152,6 +152,50 @@ def Endpoint.new (sys : Sys Root) (uri : Uri) : Except CfgErr (Endpoint Root Cha
     (Endpoint.fromShared uri).tlsConfig sys (ClientTlsConfig.build [.withEnabledRoots])
   else .ok (Endpoint.fromShared uri)
 
+/-! ### one process, several configurations and endpoints
+
+`ClientTlsConfig` is `#[derive(Clone)]` over plain owned fields (`Option<String>`, `Vec<_>`,
+`bool`): a clone is a copy.  Every builder method takes `self` and returns the updated value;
+`into_tls_connector(self, uri)` takes `self`, reads its fields and the URI, and returns a
+connector: there is no state a configuration shares with its clones, with configurations derived
+from it, or with the endpoints it was used for.  `Endpoint` likewise (`tls: Option<TlsConnector>`
+is a field; `connect*(&self)` clones what it needs).  The process state is therefore nothing but
+the values of the variables. -/
+
+structure Proc (Root Chain : Type) where
+  cfgs : List (ClientTlsConfig Root Chain) := []
+  /-- the `Result`s of the endpoint-defining expressions -/
+  eps : List (Except CfgErr (Endpoint Root Chain)) := []
+
+/-- One statement. A statement that names a variable which does not exist is not a program
+(it would not compile); it is skipped. -/
+def Proc.exec (sys : Sys Root) (p : Proc Root Chain) : Stmt Root Chain → Proc Root Chain
+  | .config none ops => { p with cfgs := p.cfgs ++ [ops.foldl ClientOp.apply {}] }
+  | .config (some k) ops =>
+    match p.cfgs[k]? with
+    | some c => { p with cfgs := p.cfgs ++ [ops.foldl ClientOp.apply c] }
+    | none => p
+  | .endpoint uri => { p with eps := p.eps ++ [.ok (Endpoint.fromShared uri)] }
+  | .endpointNew uri => { p with eps := p.eps ++ [Endpoint.new sys uri] }
+  | .cloneEndpoint e =>
+    match p.eps[e]? with
+    | some r => { p with eps := p.eps ++ [r] }
+    | none => p
+  | .tlsConfig e c =>
+    match p.eps[e]?, p.cfgs[c]? with
+    | some (.ok ep), some cfg => { p with eps := p.eps ++ [ep.tlsConfig sys cfg] }
+    | some (.error err), some _ => { p with eps := p.eps ++ [.error err] }   -- `eK?` already failed
+    | _, _ => p
+  -- `connect(&self)` / `connect_lazy(&self)` / `connect_with_connector(&self, ..)`
+  | .connect _ => p
+
+def Proc.run (sys : Sys Root) (prog : List (Stmt Root Chain)) : Proc Root Chain :=
+  prog.foldl (Proc.exec sys) {}
+
+/-- `Endpoint::from_shared(uri)?.tls_config(cN.clone())` executed in process state `p`. -/
+def Proc.useConfig (sys : Sys Root) (p : Proc Root Chain) (c : Nat) (uri : Uri) : Proc Root Chain :=
+  (p.exec sys (.endpoint uri)).exec sys (.tlsConfig p.eps.length c)
+
 /-! ### `TlsConnector::connect`, `Connector::call` -/
 
 def TlsConnector.hello (t : TlsConnector Root Chain) : ClientHello Root Chain :=
@@ -187,6 +231,15 @@ def Connector.call (ep : Endpoint Root Chain) (dialOk : Bool)
     | some t => t.connect hs
     | none => .error .httpsWithoutTls
   else .ok .plain
+
+/-- The decision for the endpoint a process defined last: the configuration error its defining
+expression returned, or what `Connector::call` does with the endpoint. -/
+def Proc.lastDecision (p : Proc Root Chain) (dialOk : Bool) (hs : ClientHello Root Chain → ClientView) :
+    Option (Except CfgErr (Except ConnErr Io)) :=
+  match p.eps.getLast? with
+  | some (.ok ep) => some (.ok (Connector.call ep dialOk hs))
+  | some (.error e) => some (.error e)
+  | none => none
 
 /-! ### `ServerTlsConfig`, `TlsAcceptor::new` -/
 
